@@ -126,7 +126,7 @@ class Run(object):
         path = os.path.join(REPLAYS, '%s-%d.json' % (self.pid, self.nreplay))
         if self.nreplay <= 25:
             with open(path, 'w') as f:
-                json.dump({'property': self.pid, 'info': info, 'case': obj}, f)
+                json.dump({'property': self.pid, 'info': info, 'case': obj}, f, default=repr)
         return path
 
     def violation(self, why, case):
@@ -175,7 +175,7 @@ class Run(object):
         }
         os.makedirs(EVID, exist_ok=True)
         with open(os.path.join(EVID, self.pid + '.json'), 'w') as f:
-            json.dump(ev, f, indent=1, sort_keys=True)
+            json.dump(ev, f, indent=1, sort_keys=True, default=repr)
         for k in self.known:
             if k.get('status') == 'open' and k.get('deviation') in self.known_hit:
                 print('KNOWN-FINDING: property=%s %s: %s (%d cases this run)'
